@@ -138,6 +138,19 @@ def analyze(ex, stmts, eff=None):
                     for m in getattr(handler, 'assigns', ()):
                         eff.assigned.add(m)
                     return
+        if isinstance(n, ast.stmt) and ex.spec.get('stmt_contracts'):
+            seg = ast.get_source_segment(ex.fsrc.src, n) or ''
+            for prefix, key in ex.spec['stmt_contracts'].items():
+                if seg.startswith(prefix):
+                    for m in ex.reg.get(key).get('modifies', ()):
+                        eff.mutated.add(m)
+                    return
+        if isinstance(n, ast.stmt) and ex.spec.get('stmt_ghost'):
+            seg = ast.get_source_segment(ex.fsrc.src, n) or ''
+            for prefix, handler in ex.spec['stmt_ghost'].items():
+                if seg.startswith(prefix):
+                    for m in getattr(handler, 'mutates', ()):
+                        eff.mutated.add(m)
         if isinstance(n, (ast.FunctionDef, ast.AsyncFunctionDef, ast.Lambda,
                           ast.ClassDef)):
             if isinstance(n, ast.FunctionDef):
@@ -523,6 +536,10 @@ def exec_for(ex, node, st):
         seq = ex.read_path(st, *path)
     else:
         seq = ex.ev(it_node, st)
+        if isinstance(seq.ty, TList):
+            # an iterable that is not a variable (e.g. sorted(..)) is nameable in
+            # invariants as seq_<loop variable>
+            st.env['seq_' + _names(node.target)[-1]] = seq
 
     if isinstance(seq.ty, TOpt):
         ex.fail(st, seq.ty.is_none(seq.term), 'TypeError')
